@@ -12,6 +12,13 @@
 (*   sort(cmp)    table.sort(t [,lt])                                        *)
 (* Queries: concat(sep,i,j), unpack(i,j), maxn, getn.  Optional arguments   *)
 (* are value tokens, <<"nil">> = absent.                                    *)
+(* Besides the list the table may hold numeric keys outside it (ex, a set of  *)
+(* <<key, value>> pairs): <<"n",i>> with i < 1 or i > n+1 ("beyond a hole"),   *)
+(* <<"f",i>> = i+0.5, <<"p",e>> = 2^e.  They are visible to rawget, to explicit *)
+(* concat/unpack ranges and to maxn (the largest positive numeric key of the    *)
+(* whole table).  While a key beyond a hole exists #t has several borders, so   *)
+(* list calls are outside the domain until it is cleared (setx(k, nil)).        *)
+(* fill(n,a,m) stands for  for k=1,n do t[k] = (a*k)%m end  on an empty list.    *)
 (* Unspecified choices are explicit: table.remove on an empty list may      *)
 (* return nothing or nil; the result of sort is ANY admissible permutation. *)
 (***************************************************************************)
@@ -24,13 +31,33 @@ IsObj(v) == v[1] = "t"
 
 At(xs, i) == IF i >= 1 /\ i <= Len(xs) THEN xs[i] ELSE Nil
 Elems(xs) == {xs[i] : i \in 1..Len(xs)}
+
+(* ---- numeric keys outside the list ---------------------------------------- *)
+ExGet(ex, k) == IF \E p \in ex : p[1] = k THEN (CHOOSE p \in ex : p[1] = k)[2] ELSE Nil
+ExSet(ex, k, v) == {p \in ex : p[1] # k} \cup (IF v = Nil THEN {} ELSE {<<k, v>>})
+(* t[i] for any integer i *)
+TAt(xs, ex, i) == IF i >= 1 /\ i <= Len(xs) THEN xs[i] ELSE ExGet(ex, <<"n", i>>)
+(* positive integer keys behind the list: they make #t ambiguous *)
+HoleKeys(ex) == {p[1] : p \in {q \in ex : q[1][1] = "n" /\ q[1][2] >= 1}}
+(* a key that setx may use with the list xs *)
+IsExtraKey(xs, k) ==
+    CASE k[1] = "n" -> k[2] < 1 \/ k[2] > Len(xs) + 1
+      [] k[1] \in {"f", "p"} -> TRUE
+      [] OTHER -> FALSE
+KeyPositive(k) == CASE k[1] = "n" -> k[2] > 0 [] k[1] = "f" -> k[2] >= 0 [] OTHER -> TRUE
+(* numeric order of key tokens: n i = i, f i = i + 0.5, p e = 2^e (e >= 31) *)
+KeyOrd(k) == IF k[1] = "n" THEN 2 * k[2] ELSE 2 * k[2] + 1
+KeyLt(a, b) ==
+    IF a[1] = "p" THEN b[1] = "p" /\ a[2] < b[2]
+    ELSE IF b[1] = "p" THEN TRUE
+    ELSE KeyOrd(a) < KeyOrd(b)
 IsList(xs) == \A i \in 1..Len(xs) : xs[i] # Nil
 
 InsertAt(xs, pos, v) == SubSeq(xs, 1, pos - 1) \o <<v>> \o SubSeq(xs, pos, Len(xs))
 RemoveAt(xs, pos) == SubSeq(xs, 1, pos - 1) \o SubSeq(xs, pos + 1, Len(xs))
 
 (* ---- the domain of the property: calls that keep t a list -------------- *)
-InDomain(xs, o) ==
+ListDomain(xs, o) ==
     LET n == Len(xs) IN
     CASE o.op = "ins_end" -> TRUE
       [] o.op = "ins"     -> o.pos >= 1 /\ o.pos <= n + 1 /\ (o.v = Nil => o.pos = n + 1)
@@ -40,7 +67,11 @@ InDomain(xs, o) ==
                              \/ (o.i = n /\ n >= 1 /\ o.v = Nil)
                              \/ o.i = n + 1
       [] o.op = "sort"    -> TRUE
+      [] o.op = "fill"    -> n = 0 /\ o.n >= 0 /\ o.m >= 1 /\ o.a >= 0
       [] OTHER            -> FALSE
+InDomain(xs, ex, o) ==
+    IF o.op = "setx" THEN IsExtraKey(xs, o.k)
+    ELSE HoleKeys(ex) = {} /\ ListDomain(xs, o)
 
 (* ---- effect ------------------------------------------------------------- *)
 Post(xs, o) ==
@@ -52,6 +83,9 @@ Post(xs, o) ==
       [] o.op = "set"     -> (IF o.i = n + 1 THEN (IF o.v = Nil THEN xs ELSE Append(xs, o.v))
                               ELSE IF o.v = Nil THEN SubSeq(xs, 1, n - 1)
                               ELSE [xs EXCEPT ![o.i] = o.v])
+      [] o.op = "fill"    -> [k \in 1..o.n |-> <<"n", (o.a * k) % o.m>>]
+      [] o.op = "setx"    -> xs
+PostEx(ex, o) == IF o.op = "setx" THEN ExSet(ex, o.k, o.v) ELSE ex
 
 (* ---- results: the set of admissible result tuples ------------------------ *)
 Results(xs, o) ==
@@ -67,31 +101,68 @@ Str(v) == IF IsNum(v) THEN ToString(v[2]) ELSE v[2]
 (* table[i]..sep..table[i+1] ... sep..table[j]; "" when i > j; an element   *)
 (* that is neither string nor number (incl. nil outside the list) is an     *)
 (* error naming the first such index.                                       *)
-RECURSIVE ConcatRange(_, _, _, _)
-ConcatRange(xs, sep, i, j) ==
+RECURSIVE ConcatRange(_, _, _, _, _)
+ConcatRange(xs, ex, sep, i, j) ==
     IF i > j THEN [err |-> FALSE, s |-> "", at |-> 0]
-    ELSE LET v == At(xs, i) IN
+    ELSE LET v == TAt(xs, ex, i) IN
          IF ~Concatable(v) THEN [err |-> TRUE, s |-> "", at |-> i]
          ELSE IF i = j THEN [err |-> FALSE, s |-> Str(v), at |-> 0]
-         ELSE LET r == ConcatRange(xs, sep, i + 1, j) IN
+         ELSE LET r == ConcatRange(xs, ex, sep, i + 1, j) IN
               IF r.err THEN r ELSE [err |-> FALSE, s |-> Str(v) \o sep \o r.s, at |-> 0]
 
-Concat(xs, sep, i, j) == ConcatRange(xs, Opt(sep, ""), Opt(i, 1), Opt(j, Len(xs)))
+Concat(xs, ex, sep, i, j) == ConcatRange(xs, ex, Opt(sep, ""), Opt(i, 1), Opt(j, Len(xs)))
 
 (* list[i], list[i+1], ..., list[j] *)
-Unpack(xs, i, j) ==
+Unpack(xs, ex, i, j) ==
     LET a == Opt(i, 1)
         b == Opt(j, Len(xs))
-    IN IF a > b THEN <<>> ELSE [k \in 1..(b - a + 1) |-> At(xs, a + k - 1)]
+    IN IF a > b THEN <<>> ELSE [k \in 1..(b - a + 1) |-> TAt(xs, ex, a + k - 1)]
 
-MaxN(xs) == Len(xs)
+(* maxn: the largest positive numeric key of the whole table (a key token), 0 if none *)
+MaxN(xs, ex) ==
+    LET ks == {p[1] : p \in {q \in ex : KeyPositive(q[1])}} \cup {<<"n", Len(xs)>>}
+    IN CHOOSE k \in ks : \A l \in ks : l = k \/ KeyLt(l, k)
 GetN(xs) == Len(xs)
+
+(***************************************************************************)
+(* Digest of a join that is too long to build as a TLC string: its length   *)
+(* and two polynomial hashes  h = (h*31 + byte) mod P  over its bytes.  Only *)
+(* for ranges of non-negative integers; sep is a sequence of byte codes.     *)
+(* Halves are combined (h1 * 31^len2 + h2), so the recursion depth is log n.  *)
+(***************************************************************************)
+P1 == 32749
+P2 == 32719
+DEmpty == [len |-> 0, h1 |-> 0, h2 |-> 0, w1 |-> 1, w2 |-> 1]
+DByte(b) == [len |-> 1, h1 |-> b % P1, h2 |-> b % P2, w1 |-> 31, w2 |-> 31]
+DCat(a, b) == [len |-> a.len + b.len,
+               h1 |-> (a.h1 * b.w1 + b.h1) % P1, h2 |-> (a.h2 * b.w2 + b.h2) % P2,
+               w1 |-> (a.w1 * b.w1) % P1, w2 |-> (a.w2 * b.w2) % P2]
+RECURSIVE DNat(_)
+DNat(k) == IF k < 10 THEN DByte(48 + k) ELSE DCat(DNat(k \div 10), DByte(48 + (k % 10)))
+RECURSIVE DBytes(_, _)
+DBytes(bs, i) == IF i > Len(bs) THEN DEmpty ELSE DCat(DByte(bs[i]), DBytes(bs, i + 1))
+(* digest of xs[i] sep xs[i+1] ... sep xs[j] followed by sep when trail *)
+RECURSIVE DJoin(_, _, _, _, _, _)
+DJoin(xs, ex, dsep, i, j, trail) ==
+    IF i = j THEN (IF trail THEN DCat(DNat(TAt(xs, ex, i)[2]), dsep) ELSE DNat(TAt(xs, ex, i)[2]))
+    ELSE LET mid == (i + j) \div 2
+         IN DCat(DJoin(xs, ex, dsep, i, mid, TRUE), DJoin(xs, ex, dsep, mid + 1, j, trail))
+(* concat(t, sep, i, j) as a digest.  err: some t[k] in the range is neither string nor  *)
+(* number; sup: the digest is defined (every t[k] is a non-negative integer)            *)
+ConcatDigest(xs, ex, sepbytes, i, j) ==
+    LET a == Opt(i, 1)
+        b == Opt(j, Len(xs))
+    IN IF a > b THEN [err |-> FALSE, sup |-> TRUE, d |-> DEmpty]
+       ELSE IF \E k \in a..b : ~Concatable(TAt(xs, ex, k)) THEN [err |-> TRUE, sup |-> TRUE, d |-> DEmpty]
+       ELSE IF \E k \in a..b : ~IsNum(TAt(xs, ex, k)) \/ TAt(xs, ex, k)[2] < 0 THEN [err |-> FALSE, sup |-> FALSE, d |-> DEmpty]
+       ELSE [err |-> FALSE, sup |-> TRUE, d |-> DJoin(xs, ex, DBytes(sepbytes, 1), a, b, FALSE)]
 
 (***************************************************************************)
 (* Sort.  A comparator is a record [kind, j]; keys maps object ids to the  *)
 (* number the by-key comparators look at.  Base(c,a,b) is what the          *)
 (* comparator answers for the pair: "T", "F" or "E" (raises an error).      *)
 (*   lt    no comparator (the < operator)      ltf   function(a,b) return a<b end  *)
+(*   ltnil table.sort(t, nil): an explicit nil comparator is the < operator     *)
 (*   gt    function(a,b) return a>b end        lt0   returns 0 / nil instead of true / false *)
 (*   bykey function(a,b) return a.k<b.k end    mt    no comparator, elements share __lt on .k *)
 (*   true / false / none  constant true, constant false, returns nothing   *)
@@ -110,7 +181,7 @@ LuaLt(a, b, keys, mt) ==
 HasBase(c) == c.kind # "alt"
 
 Base(c, a, b, keys) ==
-    CASE c.kind \in {"lt", "ltf", "lt0", "errat"} -> LuaLt(a, b, keys, FALSE)
+    CASE c.kind \in {"lt", "ltnil", "ltf", "lt0", "errat"} -> LuaLt(a, b, keys, FALSE)
       [] c.kind = "gt"    -> LuaLt(b, a, keys, FALSE)
       [] c.kind = "mt"    -> LuaLt(a, b, keys, TRUE)
       [] c.kind = "bykey" -> (IF IsObj(a) /\ IsObj(b) THEN TF(keys[a[2]] < keys[b[2]]) ELSE "E")
